@@ -16,8 +16,10 @@
 //!              items (comma-joined): `m` marker rule `.f<tag>{a:b}`; `i<url>` `@import "url"`;
 //!              `I<url>` `@import url` (unquoted); `u<url>` `@use "url" as m<k>` (k = item index);
 //!              `f<url>` `@forward "url"`; `l<url>` `@include meta.load-css("url")`;
+//!              `U<url>` / `F<url>` the same @use / @forward `with ($cfg: 1)`;
 //!              `b<k>.<t>` read-and-increment `m<k>.$c<t>` printing `.r<tag>_<j>{v:<value>}`
-//!              (j = index of this item).  Every scss file first declares `$c<tag>: 0`.
+//!              (j = index of this item).  Every scss file first declares `$c<tag>: 0` and
+//!              `$cfg: 0 !default`.
 //!              Files whose path ends in `.css` are written as plain CSS (markers only).
 //!
 //! result: `<class>:<trace>|<hex css or message>|<faults fired>` where class is
@@ -276,7 +278,7 @@ fn render(tag: usize, path: &str, items: &str) -> Option<Vec<u8>> {
         }
         return Some(s.into_bytes());
     }
-    s += &format!("$c{tag}: 0;\n");
+    s += &format!("$c{tag}: 0;\n$cfg: 0 !default;\n");
     if items.iter().any(|i| i.starts_with('l')) {
         s += "@use \"sass:meta\" as meta;\n";
     }
@@ -290,6 +292,8 @@ fn render(tag: usize, path: &str, items: &str) -> Option<Vec<u8>> {
             "I" => s += &format!("@import {rest};\n"),
             "u" => s += &format!("@use \"{rest}\" as m{j};\n"),
             "f" => s += &format!("@forward \"{rest}\";\n"),
+            "U" => s += &format!("@use \"{rest}\" as m{j} with ($cfg: 1);\n"),
+            "F" => s += &format!("@forward \"{rest}\" with ($cfg: 1);\n"),
             "l" => s += &format!("@include meta.load-css(\"{rest}\");\n"),
             "b" => {
                 let (k, t) = rest.split_once('.')?;
